@@ -206,7 +206,17 @@ def case_src(k, case, callees):
     """All definitions of one case: variants, the overloaded f, one run function per callee."""
     nv = len(case["variants"])
     s = "".join(variant_src(k, i, v) for i, v in enumerate(case["variants"]))
-    s += f"@guppy.overload({', '.join(f'c{k}_v{i}' for i in range(nv))})\ndef c{k}_f(): ...\n"
+    names = [f"c{k}_v{i}" for i in range(nv)]
+    # in a quarter of the cases two consecutive variants are grouped into an inner overload that is
+    # listed at their position (an overloaded function is itself a legal variant); resolution order is
+    # the flattened order, so the oracle (first accepting direct call) is unchanged.  The grouping is a
+    # pure function of the case, so replays reproduce it.
+    h = sum(len(str(v)) for v in case["variants"]) + len(case.get("args", []))
+    if nv >= 3 and h % 4 == 0:
+        a = (h // 4) % (nv - 1)
+        s += f"@guppy.overload({names[a]}, {names[a + 1]})\ndef c{k}_g(): ...\n"
+        names[a:a + 2] = [f"c{k}_g"]
+    s += f"@guppy.overload({', '.join(names)})\ndef c{k}_f(): ...\n"
     for c in callees:
         s += run_src(k, case, c, c)
     return s
